@@ -355,6 +355,55 @@ func messengerChangeProbe(g *sim.G, label string) []*sim.Op {
 	return ops
 }
 
+// ambiguousPairProbe: two receives whose (source domain, nonce) pairs read the same when their decimal digits are
+// written one after the other ((1, 23) and (12, 3)), a genesis round trip, and both messages again: whatever keys or
+// de-duplicates by plain concatenation loses one of them.
+func ambiguousPairProbe(g *sim.G, label string) []*sim.Op {
+	ds := g.DomainsWithMessenger()
+	if len(ds) == 0 {
+		return nil
+	}
+	d1 := sim.Pick(g, label+"/d1", ds)
+	n1 := uint64(g.Int(label+"/n1", 10, 99999))
+	s := fmt.Sprint(d1) + fmt.Sprint(n1)
+	var cands []sim.UsedSpec
+	for k := 1; k < len(s); k++ {
+		var d2 uint32
+		var n2 uint64
+		if _, err := fmt.Sscan(s[:k], &d2); err != nil {
+			continue
+		}
+		if _, err := fmt.Sscan(s[k:], &n2); err != nil {
+			continue
+		}
+		if k != len(fmt.Sprint(d1)) && fmt.Sprint(d2)+fmt.Sprint(n2) == s && !g.W.Model.Used[sim.UsedSpec{Domain: d2, Nonce: n2}] {
+			cands = append(cands, sim.UsedSpec{Domain: d2, Nonce: n2})
+		}
+	}
+	if len(cands) == 0 || g.W.Model.Used[sim.UsedSpec{Domain: d1, Nonce: n1}] {
+		return nil
+	}
+	c := sim.Pick(g, label+"/partner", cands)
+	by := sim.Acct(g.Acct(label + "/by"))
+	mk := func(l string, toModule bool, d uint32, n uint64) *sim.Op {
+		in := g.Inbound(l, sim.InboundOpts{ToModule: &toModule, Src: &d, Nonce: &n, Submitter: by})
+		att := g.HonestAttestation(l+"/att", in.Msg)
+		if att == nil {
+			att = []byte{}
+		}
+		op := sim.TxOp("recv", &types.MsgReceiveMessage{From: by, Message: in.Msg, Attestation: att})
+		if toModule {
+			op.WithMeta("module", "1")
+		}
+		return op
+	}
+	a, b := mk(label+"/a", true, d1, n1), mk(label+"/b", false, c.Domain, c.Nonce)
+	if g.Bool(label + "/order") {
+		a, b = b, a
+	}
+	return []*sim.Op{a, b, restartOp(g), cloneOp(a).WithMeta("vary", "after-restart"), cloneOp(b).WithMeta("vary", "after-restart")}
+}
+
 // restartOp: a genesis round trip; optional scalars that equal their defaults may be left out of the file.
 func restartOp(g *sim.G) *sim.Op {
 	op := &sim.Op{Kind: "restart", Label: "restart"}
@@ -397,6 +446,12 @@ func (m Mix) next(g *sim.G) *sim.Op {
 		ops := rollbackProbe(g, "rb")
 		queueOps(g, ops[1:]...)
 		return ops[0]
+	}
+	if m.Restart > 0 && m.Recv > 0 && g.Pct("ambprobe", 3) {
+		if ops := ambiguousPairProbe(g, "amb"); ops != nil {
+			queueOps(g, ops[1:]...)
+			return ops[0]
+		}
 	}
 	if m.MsgrProbe > 0 && g.Pct("msgrprobe", m.MsgrProbe) {
 		if ops := messengerChangeProbe(g, "mp"); ops != nil {
